@@ -23,7 +23,12 @@ Oracles on the real code (independent of the model)
 from __future__ import annotations
 
 import math
+import os
 import threading
+
+# small dense problems: one BLAS thread is fastest and does not fight with the other jobs on the box
+os.environ.setdefault("OPENBLAS_NUM_THREADS", "1")
+os.environ.setdefault("MKL_NUM_THREADS", "1")
 
 import numpy as np
 import torch
@@ -753,14 +758,14 @@ def run(ctx: Ctx):
         if ctx.quick and rng.random() < 0.5:
             continue
         cases.append(gen_lqr_case(rng, small=sh))
-    for _ in range(ctx.pick(70, 900)):
+    for _ in range(ctx.pick(110, 1500)):
         cases.append(gen_lqr_case(rng, big=True))
-    for _ in range(ctx.pick(14, 150)):
+    for _ in range(ctx.pick(22, 250)):
         cases.append(gen_mpc_linear_case(rng, big=not ctx.quick))
-    for _ in range(ctx.pick(16, 200)):
+    for _ in range(ctx.pick(28, 300)):
         cases.append(gen_mpc_nls_case(rng, big=not ctx.quick))
     run_cases(ctx, cases)
-    run_stepper(ctx, ctx.pick(60, 600))
+    run_stepper(ctx, ctx.pick(100, 1000))
     ctx.notes.append("largest observed/allowed ratios: " + ", ".join(f"{k}={v:.3g}" for k, v in sorted(STAT.items())))
 
 
